@@ -19,7 +19,7 @@ func init() { registry["C02"] = runC02 }
 
 func runC02(c *Ctx) {
 	c.R.Rule = "(i) stress episodes on 1-8 keys with back-to-back probers, tiny to ample capacity, TTLs, Del/re-insert, concurrent Clear and delay injection at every hook point and inside callbacks; every hit is checked against the exit entries of its value; (ii) register sub-episodes: resident keys overwritten and read by 2-16 goroutines, history checked by porcupine per key; distinct = per-key 4-grams of event kinds per configuration / distinct register histories"
-	n := c.N(32, 480)
+	n := c.N(32, 256)
 	for i := 0; i < n; i++ {
 		if i%c.NParts != c.Part {
 			continue
@@ -44,7 +44,7 @@ func runC02(c *Ctx) {
 			o.Cfg.Collide = lab.Pick(rng, []int{1, 2})
 		}
 		o.Name = fmt.Sprintf("c02-nk%d-cap%d-buf%d-w%d-d%.1f-collide%d", nk, o.Cfg.MaxCost, o.Cfg.SetBuf, o.Workers, o.DelayLevel, o.Cfg.Collide)
-		o.OpsPerPhase = c.N(3000, 8000) / o.Workers
+		o.OpsPerPhase = c.N(3000, 4000) / o.Workers
 		c.J.Case(o)
 		res := runStress(c, o)
 		accountStress(c, "C02", o, res, stressChecks{HitAfterExit: true})
